@@ -140,7 +140,6 @@ func closureAccounted(fn *ssa.Function) bool {
 	return ok && !bad
 }
 
-
 // onlyCalledStatically: every use of fn in the module is a static call (or defer) of it.
 func onlyCalledStatically(c *Ctx, fn *ssa.Function) bool {
 	n := c.CHA().Nodes[fn]
